@@ -142,6 +142,46 @@ Section WithValidate.
   Fixpoint ops_ok (y : sys) (ops : list sysop) : Prop :=
     match ops with [] => True | o :: r => op_ok y o /\ ops_ok (sys_step y o) r end.
 
+  (** ** Disciplined operation: the signer only ever sees the proxy's CURRENT request, and its answer goes
+         back to the proxy before the signer sees anything else (what sync_ta_proxy_signer_if_possible
+         does in one call, and what an operator of an off-line signer is expected to do). Children call in
+         at any time, and ANY response message may be handed to the proxy at any time. *)
+  Inductive hop :=
+  | HMake (n : N)
+  | HChild (c k : N) (r : creq)
+  | HAddChild (c : N)
+  | HExchange (ov : option N)               (* fetch the current request, sign it, hand the answer back *)
+  | HRespond (m : msg response).            (* any message: replayed, stale, forged, cross-wired *)
+
+  Definition hop_ops (y : sys) (h : hop) : list sysop :=
+    match h with
+    | HMake n => [YMake n]
+    | HChild c k r => [YChild c k r]
+    | HAddChild c => [YAddChild c]
+    | HRespond m => [YRespond m]
+    | HExchange ov =>
+        match p_get_request (y_p y) with
+        | None => []
+        | Some m => YGet :: YSign m ov :: match s_process (y_s y) m ov with Ok (_, r) => [YRespond r] | Err _ => [] end
+        end
+    end.
+  Definition hop_step (y : sys) (h : hop) : sys := sys_run y (hop_ops y h).
+  Fixpoint hop_run (y : sys) (hs : list hop) : sys :=
+    match hs with [] => y | h :: r => hop_run (hop_step y h) r end.
+
+  (** Side conditions: fresh nonces, no forged signer signatures, forced numbers above the current one,
+      and every child key identifier belongs to one child ([owner]). *)
+  Definition hop_ok (owner : N -> N) (y : sys) (h : hop) : Prop :=
+    match h with
+    | HMake n => ~ In n (y_nonces y)
+    | HChild c k r => owner k = c
+    | HAddChild _ => True
+    | HExchange ov => forall n, ov = Some n -> o_num (s_objs (y_s y)) < n
+    | HRespond m => m_by m = s_id (y_s y) -> m_intact m = true -> In m (y_resps y)
+    end.
+  Fixpoint hops_ok (owner : N -> N) (y : sys) (hs : list hop) : Prop :=
+    match hs with [] => True | h :: r => hop_ok owner y h /\ hops_ok owner (hop_step y h) r end.
+
   (** Associated, in step, nothing in flight. *)
   Definition sys_init (y : sys) : Prop :=
     (exists si, p_signer (y_p y) = Some si /\ si_id si = s_id (y_s y) /\ si_objs si = s_objs (y_s y))
